@@ -153,7 +153,8 @@ def run(ctx):
     dense_ws = {"prefix_dense": True, "header_ws": True, "opts": {"header_ws": False, "max_decls": 10, "max_types": 3}}
     # > 20 declarations over several parent types: the order of the overload list then also depends on the stability of
     # the sort (std's unstable sort is an insertion sort, i.e. stable, up to 20 elements)
-    dense_big = {"prefix_dense": True, "opts": {"header_ws": False, "max_decls": 40, "max_types": 4}}
+    # (max_depth 2 keeps the compile of such a project fast: with deeper nesting a 40-declaration project takes ~1 min)
+    dense_big = {"prefix_dense": True, "opts": {"header_ws": False, "max_decls": 44, "max_types": 4, "max_depth": 2}}
     plan = [("names", dense, ctx.pick(200, 10000)), ("names", dense_big, ctx.pick(40, 4000)), ("names", dense_ws, ctx.pick(120, 6000)), ("names", hw, ctx.pick(120, 5000)),
             ("core", hw, ctx.pick(40, 1500)), ("core", None, ctx.pick(40, 1500))]
     import isogen
